@@ -40,4 +40,11 @@ StrictPred(db, d) == ConsDef(db.parent, MatchedSet(db.parent, db.thr, db.gt, d))
 Round4(q) ==
   LET n == q[1] * 10000  d == q[2]  fl == n \div d  r == n % d
   IN IF 2 * r < d THEN fl ELSE IF 2 * r > d THEN fl + 1 ELSE IF fl % 2 = 0 THEN fl ELSE fl + 1
+
+\* a printed four-decimal cell c (ten-thousandths) is acceptable for the exact distance q = <<n, u>>: it is the correctly
+\* rounded value; within 1/80 of a unit of an exact tie (where the float32 result decides) either neighbour is accepted
+CellOK(c, q) ==
+  LET n == q[1] * 10000  u == q[2]  fl == n \div u  r == n % u
+      gap == IF 2 * r >= u THEN 2 * r - u ELSE u - 2 * r
+  IN IF gap * 80 < u /\ gap # 0 THEN c \in {fl, fl + 1} ELSE c = Round4(q)
 =============================================================================
